@@ -151,6 +151,41 @@ var pkceNearMisses = []string{"s256", "S256 ", " S256", "PLAIN", "null"}
 var pkceMethodTag = map[string]string{"": "none", "s256": "s256-lower", "S256 ": "S256-trailing-space", " S256": "S256-leading-space", "PLAIN": "PLAIN-upper"}
 
 var roCursor int
+var roFlowCursor int
+
+// randomRoFlow: client kind round-robin; placement mostly one that OIDC Core 6.1 allows; PKCE parameters
+// in four classes - all inside the object (nothing in the query), all in the query (the object carries the
+// other parameters only), both places saying different things, or any mix (the object supersedes).
+func randomRoFlow(r drv.Rand) roFlowCase {
+	rc := roFlowCase{kind: clientKinds[roFlowCursor%len(clientKinds)], sent: !r.Chance(1, 7)}
+	roFlowCursor++
+	rc.placement = drv.Pick(r, []string{"PBoth", "PRedirectInner", "PStateInner"})
+	if r.Chance(1, 8) {
+		rc.placement = drv.Pick(r, []string{"PScopeInner", "PResponseTypeInner"})
+	}
+	methods := []string{"S256", "S256", "plain"}
+	rels := []string{"VS256", "VPlain", "VNone"}
+	switch r.IntN(6) {
+	case 0, 1: // PKCE only inside the object
+		rc.oMethod, rc.oChallenge = drv.Pick(r, methods), drv.Pick(r, rels)
+	case 2: // PKCE only in the query
+		rc.qMethod, rc.qChallenge = drv.Pick(r, methods), drv.Pick(r, rels)
+	case 3: // both places, the two saying different things: what the object says counts
+		rc.oMethod, rc.oChallenge = drv.Pick(r, methods), drv.Pick(r, rels)
+		rc.qMethod = map[string]string{"S256": "plain", "plain": "S256"}[rc.oMethod]
+		rc.qChallenge = drv.Pick(r, rels)
+	default:
+		opt := func(l []string) string {
+			if r.Chance(1, 3) {
+				return ""
+			}
+			return drv.Pick(r, l)
+		}
+		rc.qMethod, rc.oMethod, rc.qChallenge, rc.oChallenge = opt(methods), opt(methods), opt(rels), opt(rels)
+	}
+	return rc
+}
+
 var tokCursor int // walks through the client kinds for the token flows
 var tokJWT int    // access-token type of the token flows
 
@@ -168,7 +203,7 @@ func optStrList(l [nEps]*string) string {
 
 // runConfig emits every case of one configuration on both routers.
 func runConfig(w *emit.Writer, r drv.Rand, c config, sweep string, nPkce int) {
-	nRo := nPkce // request-object probes per (configuration, router)
+	nRo, nRoFlow := nPkce, nPkce // request-object probes / request-object code flows per (configuration, router)
 	if nRo < 8 {
 		nRo = 2
 	}
@@ -332,6 +367,45 @@ func runConfig(w *emit.Writer, r drv.Rand, c config, sweep string, nPkce int) {
 				w.Add(emit.Case{Input: emit.Ctor("IReqObj", routerCoq(rt), cc, k.coq, pl, q.coq()),
 					Observed: emit.Ctor("OReqObj", emit.Bool(d.reqParam), [...]string{"RoHonoured", "RoNotSupported", "RoOther", "RoPanic"}[res]),
 					Tags:     append([]string{"kind=reqobj", "client=" + k.auth, "placement=" + pl}, base...), Human: human})
+			}
+		}
+
+		// ---- request object followed through the whole code flow: every parameter class (PKCE challenge and
+		// method, nonce, scope, redirect_uri, state) carried by the signed object, wholly or partly
+		if eps[iAuth].Kind != epNil && eps[iToken].Kind != epNil {
+			for n := 0; n < nRoFlow; n++ {
+				rc := randomRoFlow(r)
+				issued, carried, p := f.requestObjectFlow(rt, q, rc, d.issuer)
+				res := emit.None
+				if issued {
+					res = emit.Some(emit.Bool(carried))
+				}
+				obs := emit.Ctor("ORoFlow", emit.StrList(d.pkce), emit.Bool(d.reqParam), res)
+				if p {
+					obs = "OPanic"
+				}
+				optS := func(x string) string {
+					if x == "" {
+						return emit.None
+					}
+					return emit.Some(emit.Str(x))
+				}
+				optC := func(x string) string {
+					if x == "" {
+						return emit.None
+					}
+					return emit.Some(x)
+				}
+				tagv := func(x string) string {
+					if x == "" {
+						return "none"
+					}
+					return x
+				}
+				w.Add(emit.Case{Input: emit.Ctor("IRoFlow", routerCoq(rt), cc, rc.kind.coq, rc.placement, optS(rc.qMethod), optS(rc.oMethod),
+					optC(rc.qChallenge), optC(rc.oChallenge), emit.Bool(rc.sent)), Observed: obs,
+					Tags: append([]string{"kind=roflow", "client=" + rc.kind.auth, "placement=" + rc.placement, "qmethod=" + tagv(rc.qMethod), "omethod=" + tagv(rc.oMethod),
+						"qchallenge=" + tagv(rc.qChallenge), "ochallenge=" + tagv(rc.oChallenge), "verifier=" + emit.Bool(rc.sent)}, base...), Human: human})
 			}
 		}
 	}
@@ -683,6 +757,7 @@ func main() {
 		Rule: "grid = 2^5 flags x 2^3 capabilities x {default, custom paths} x {static, host, forwarded} (thorough: all 1536 points, quick: seeded sample), " +
 			"each on both routers with a random request (Host, Forwarded) and issuer variant; for the host / forwarded strategies a sequence of 6 requests (same Host + other Forwarded, other Host + same Forwarded, the first again, no Forwarded, the first again) goes to the one provider instance, one doc case per request; mixed = random per-endpoint default/custom/URL/nil; " +
 			"per (configuration, router): 12 grant strings; PKCE cells client kind x {S256, plain, no challenge} x {VS256, VPlain, VNone, VAbsent} visited round-robin (3 per (configuration, router) in quick, 8 in thorough, and a third / half as many cells with near-miss method names); request objects over client kind x parameter placement (all outside / redirect_uri, state, scope, response_type only inside), 2 per (configuration, router) in quick, 8 in thorough; custom endpoint paths take a random shape (trailing slash, no leading slash, double slash, nested) and every advertised URL is fetched as advertised; " +
+			"request object followed through the whole code flow (kind=roflow, 3 per (configuration, router) in quick, 8 in thorough): client kind round-robin, the object carries its own state, nonce, scope (openid profile) and redirect_uri, the other parameters placed as for reqobj (1 in 8 an illegal placement), PKCE in four classes - method and challenge only inside the object (2 in 6), only in the query (1 in 6), in both places with the other method in the query (1 in 6), or an independent mix of none / query / object / both with possibly conflicting values (object supersedes) - challenge = S256(verifier) / verifier / unrelated, verifier sent in 6 of 7; observed: tokens issued, and whether callback state, ID-token nonce, response scope and redirect target are the object's; " +
 			"token flows (kind=tokens): per (configuration, router) one client kind (basic / post / private_key_jwt / public, round-robin; credentials sent as registered; every code flow bound to an S256 challenge) runs code, refresh, client_credentials, jwt-bearer, token exchange (access / refresh / ID token requested; subject token = access, ID or refresh token of a code flow), device_code and implicit (id_token, id_token token) in a random order under the request of the doc case - all ten at the first position of a request sequence, a random five at positions 1-3 - with JWT access tokens in two thirds of the cases (client AccessTokenType and JWTProfileTokenType); the iss of every ID token and JWT access token is read; the two routers are visited in a random order; " +
 			"12 + 5 grant strings: the known names, wrong case, white space (blank, tab, CR, LF), Unicode case folding (U+017F, U+212A), trailing slash, short names and keyword-like values (null, undefined, true, 0, [], {}); PKCE method names s256 / 'S256 ' / ' S256' / PLAIN / null besides S256 and plain; " +
 			"issuer strings = scheme x authority x path x query marker x fragment marker product + specials (http / https in upper and mixed case, keyword-like values, white space plain and encoded, markers behind 1 KiB / 4 KiB of path); every scheme spelling (https, http, HTTPS, HTTP, Http, hTTp, HttpS, ftp, FTP, none) x every authority (incl. upper-case host, default ports :80 / :443, trailing dot) without markers, with and without the opt-in; Discover = asked x served variants (white space, %20, +, long s, Kelvin sign, host / path case, keywords, issuers beyond 4 KiB differing in the last byte). " +
